@@ -63,6 +63,12 @@ type gen struct {
 	lastBad bool
 	burstPm int // probability that a request starts a burst of batchable commands
 	burst   int // batchable commands left in the running burst
+	// follow-ups: after a TTL command the next requests tend to hit the same
+	// key of the same family (writes, clears, persist around its expiry instant)
+	followFam  int
+	followKey  string
+	followLeft int
+	forceKey   string
 	hot    int // index of a "hot" key used with higher probability
 	ntable int
 }
@@ -72,6 +78,9 @@ func b(s string) []byte { return []byte(s) }
 func (g *gen) table() string { return tables[g.t.Choose(g.ntable)] }
 
 func (g *gen) key() string {
+	if g.forceKey != "" {
+		return g.forceKey
+	}
 	// a hot key makes repeats inside one apply batch frequent
 	if g.t.Bool(400) {
 		return tables[0] + ":" + keyPool[g.hot]
@@ -80,6 +89,9 @@ func (g *gen) key() string {
 }
 
 func (g *gen) kvkey() string {
+	if g.forceKey != "" {
+		return g.forceKey
+	}
 	if g.t.Bool(60) {
 		return g.table() + ":" + hllPool[g.t.Choose(len(hllPool))]
 	}
@@ -253,6 +265,22 @@ func (g *gen) one(idx int) *req {
 	}
 	ttl := t.Bool(g.ttlPm)
 	fam := t.Weighted(g.w)
+	g.forceKey = ""
+	if g.followLeft > 0 && t.Bool(700) {
+		g.followLeft--
+		fam = g.followFam
+		g.forceKey = g.followKey
+		ttl = t.Bool(250)
+	}
+	defer func() {
+		g.forceKey = ""
+		// a TTL command on a collection / KV key starts a follow-up phase
+		if len(r.args) >= 3 && fam <= 4 && (strings.HasSuffix(r.name, "expire") || r.name == "setex") {
+			g.followFam = fam
+			g.followKey = string(r.args[1])
+			g.followLeft = 1 + t.Choose(4)
+		}
+	}()
 	switch fam {
 	case 0: // ---- KV
 		k := g.kvkey()
